@@ -1,6 +1,7 @@
 """C08 — only the right key opens a store; re-key, provisioning and URIs lose nothing."""
 
 CFG = {
+    "extra_props": ["C08Pg"],
     "feature": "c08",
     "gens": ["C08"],
     "rule": (
@@ -34,8 +35,22 @@ CFG = {
         "profile, followed by open / session / rekey / later writes / reopen; records whose `ver` is not \"1\" but whose six members are well formed are "
         "not judged on acceptance (no property states it; counted as obs:pk:ver-not-checked:*): accepted, every record must be readable and the re-key "
         "lose nothing; refused, the kind must be Unsupported. "
+        "THIRD WAVE (the second anchor of the URI clause, harness/src/c08pg.rs). (h) c08:pgopts: `PostgresStoreOptions::new` on store URIs assembled from "
+        "scheme (postgres / postgresql / none / arbitrary), user-info (none, plain, empty user, '\"' / NUL, reserved characters), hosts (plain, with port, "
+        "empty, percent-escaped delimiters, exotic), paths ('', '/', '/d', '/a/b', '/%22', '/%00', non-ASCII, '//x', escaped '?' '#' '/'), each of the seven "
+        "consumed parameters absent / present / given twice (the last one counts) / empty / malformed (numbers: '', '+7', '-1', '007', ' 5', '5 ', 2^32-1, 2^32, "
+        "2^64-1, 2^64, '1e3', Arabic-Indic and full-width digits, '+', '-', '-0', '++1', NUL …; schema and admin credentials with & = %26 @ : / ? # '\"' NUL), 0-6 further "
+        "parameters (names that differ from the consumed ones by case, a suffix, a prefix or a missing letter; repeated names; sqlite's names), a fragment "
+        "(also one that looks like a query), all percent-/form-encoded with random choices (letters escaped, either hex case, '+' or %20, '&&'); 1 in 12 an "
+        "arbitrary URI of (b) with one consumed parameter appended; 1 in 15 a hand-built `Options` value (paths no URI yields: no leading '/', a multi-byte "
+        "first character); 50 fixed cases (the crate's unit test `postgres_parse_uri`, the witnesses of the statements Props/C08Pg.lean proves false, every "
+        "number spelling).  Output: the four numbers, host / name / username / schema (from `Debug`) and BOTH derived URIs (verif hook) re-parsed by the real "
+        "`parse_uri` as canonical options, their text too when at most one parameter is left.  Oracle: inside the round-trip domain WF, `uri` = the input without "
+        "the seven parameters, `admin_uri` = that with the admin credentials and path /postgres, no consumed name in either, no panic, refusals are Input, "
+        "valid-by-construction URIs accepted, malformed numbers refused, identifiers validated. "
         "non-trivial: uri cases = WF holds and (>= 1 query parameter or a component that needs percent-encoding); method cases = all; "
-        "life cases = >= 1 successful re-key and >= 1 rejected open of the existing store. distinct = hash of the case"
+        "life cases = >= 1 successful re-key and >= 1 rejected open of the existing store; pgopts cases = accepted, inside WF, with >= 1 consumed parameter, or "
+        "refused for a malformed number. distinct = hash of the case"
     ),
     "assumptions": [
         "Argon2i, base58 and the ChaCha20-Poly1305 wrap of the profile key are parameters of the model (Crypto.Laws: decryptability; a blob "
@@ -50,6 +65,9 @@ CFG = {
         "HashMap iteration order: the theorem quantifies over every enumeration; each executed case fixes one (the order listed in the case)",
     ],
     "trusted_base": [
+        "harness/src/c08pg.rs: the parser of `PostgresStoreOptions`' Debug output (Rust string-literal unescaping), the reading of the two URIs through "
+        "askar_storage::verif_hooks::postgres_options_uris, the expected options (input minus the seven names; admin credentials; /postgres); "
+        "AskarModel/Model/PgOptions.lean states the defaults 30 / 300 / 10 / 0 as constants (not read by tools/extract.py)",
         "harness/src/c08.rs: the independent WF predicate, base58 codec and reference state (method, pass key, profiles, records, default profile) "
         "of the life-cycle oracle; the out-of-band row snapshot (rawsql.rs over the bundled SQLite) taken around every failed open",
         "lean/Driver/C08.lean: JSON protocol and the toy instance of the primitives",
@@ -95,6 +113,12 @@ def nontrivial(rec):
         return isinstance(out, dict) and isinstance(out.get("opts"), dict) and (case.get("garbage") or case.get("run") or "?" in case.get("uri", ""))
     if kind == "c08:misc":
         return isinstance(out, list) and len(out) >= 5
+    if kind == "c08:pgopts":
+        if not isinstance(out, dict):
+            return False
+        if "err" in out:
+            return bool(case.get("garbage"))
+        return isinstance(out.get("uri"), dict) and feat.get("wf", 0) >= 1 and feat.get("consumed_present", 0) >= 1
     if kind == "c08:life":
         ops = case.get("ops") or []
         outs = _outs(rec)
